@@ -1089,6 +1089,12 @@ func (e *sched) execFrom(fr *sFrame, states []*sState, b, pred, stop *ssa.BasicB
 						more = append(more, e.proto.split(e, st, in)...)
 					}
 					states = append(states, more...)
+				} else if e.ghostArr != 0 {
+					var more []*sState
+					for _, st := range states {
+						more = append(more, e.splitBits(st, in)...)
+					}
+					states = append(states, more...)
 				}
 				// states run in lockstep: the same instruction allocates the same object identity in each of them
 				base, maxID := e.nextID, e.nextID
@@ -1506,6 +1512,11 @@ func (e *sched) mergeAt(states []*sState, fn *ssa.Function, b *ssa.BasicBlock) [
 			return true
 		}
 		return active[vf]
+	}
+	if e.ghostArr != 0 {
+		for _, s := range states {
+			e.concretise(s)
+		}
 	}
 	e.dbgLabel = "call-return"
 	if b != nil {
